@@ -1,6 +1,6 @@
 SPECIFICATION Spec
 CONSTANTS
-  PxOk = TRUE
-INVARIANTS TypeOK PrivacyInv WantedOnlyWhenOff
+  PxOk = FALSE
+INVARIANTS TypeOK PrivacyInv NothingPastBadProxy
 PROPERTIES ProxyFixed
 CHECK_DEADLOCK FALSE
